@@ -15,6 +15,7 @@ UTF-8 bytes (`-` = empty). Offsets are byte offsets into the request's text.
   fmt-atom <ty> | fmt-member <ty>   → s:<hex>   `render_type_atom` / `render_union_member`
   fmt-alias <alias> → s:<hex>  `format_program` on the one-alias program (layout at width 100)
   flat-alias <alias> → s:<hex> the single-line text of the alias (`printAlias`)
+  broken-alias <alias> → s:<hex> | none   the one-member-per-line text of a union alias (`brokenAlias`)
   wf <ty> | wf-alias <alias>      → 1 | 0        `WFType` (the hypothesis of the round-trip theorems)
 
 <ty>    ::= (prim int|bin|ref) | (tuple <name?> <0|1> <field>*) | (fn <ty> <ty>) | (union <ty>*)
@@ -186,6 +187,11 @@ def typeStep (req : List Sx) : Option String :=
     some (match aliasOfSx a with | some a => sHex (fmtAlias a) | none => "bad-request")
   | [.atom "flat-alias", a] =>
     some (match aliasOfSx a with | some a => sHex (printAlias a) | none => "bad-request")
+  | [.atom "broken-alias", a] =>
+    some (match aliasOfSx a with
+      | some ⟨name, ps, .union ts⟩ => sHex (brokenAlias name ps ts)
+      | some _ => "none"
+      | none => "bad-request")
   | [.atom "wf", t] =>
     some (match tyOfSx t with | some t => (if t.wf then "1" else "0") | none => "bad-request")
   | [.atom "wf-alias", a] =>
